@@ -392,6 +392,64 @@ def ensemble_warn_case(rng):
     return out, "ens-warn:%s:wf%d" % (which, wf)
 
 
+def restart_case(rng):
+    """C04 across a restart: a solver run with SetSaveFrequency(1, file) is abandoned after k Steps (no stop was reached) and
+    LoadSolver(file) picks the run up from the periodic dump: the restored solver's generations = completed iterations - 1,
+    one step record per iteration, evaluations = the calls made so far - and the same after some more Steps"""
+    common.import_mystic()
+    import os, tempfile
+    from mystic.solvers import DifferentialEvolutionSolver, DifferentialEvolutionSolver2, NelderMeadSimplexSolver, LoadSolver
+    from mystic.termination import VTR
+    from mystic.monitors import Monitor
+    out = []
+    dim = rng.randint(1, 3)
+    cost_spec = solvergen.gen_cost(rng, dim, allow_vector=False)
+    _ENS_EXPR[0] = cost_spec[1]
+    del _ENS_CALLS[:]
+    kind = rng.choice(["DE", "DE2", "NM"])
+    _random.seed(rng.randrange(2**31)); np.random.seed(rng.randrange(2**31))
+    if kind == "NM":
+        s = NelderMeadSimplexSolver(dim); s.SetInitialPoints([common.dyadic(rng, -3, 3, 3) for _ in range(dim)])
+    else:
+        s = (DifferentialEvolutionSolver if kind == "DE" else DifferentialEvolutionSolver2)(dim, rng.randint(4, 7))
+        s.SetRandomInitialPoints([-3.0] * dim, [3.0] * dim)
+    s.SetEvaluationMonitor(Monitor())
+    s.SetTermination(VTR(-1.0, 0.0))          # never true
+    s.SetEvaluationLimits(10 ** 6, 10 ** 8)
+    fd, fn = tempfile.mkstemp(suffix=".pkl", prefix="c04_restart_"); os.close(fd)
+    k = rng.randint(2, 7); more = rng.randint(1, 4)
+    case = {"restart": kind, "dim": dim, "cost": dsl.expr_sexp(cost_spec[1]), "steps_before": k, "steps_after": more}
+    try:
+        s.SetSaveFrequency(1, fn)
+        for _ in range(k):
+            s.Step(_ens_cost)
+        calls_at_dump = len(_ENS_CALLS)
+        r = LoadSolver(fn)
+        def look(t, iters, calls, where):
+            if t.generations != iters - 1:
+                out.append(("restart/%s/generations-counter" % kind, "%s: %d iterations were completed, the restored solver reports generations = %d" % (where, iters, t.generations), case))
+            elif len(t._stepmon) != iters:
+                out.append(("restart/%s/stepmon-length" % kind, "%s: %d iterations were completed, the restored solver's step monitor holds %d records" % (where, iters, len(t._stepmon)), case))
+            elif t.evaluations != calls:
+                out.append(("restart/%s/evaluations-counter" % kind, "%s: %d cost calls were made for this run, the restored solver reports evaluations = %d" % (where, calls, t.evaluations), case))
+            elif len(t._stepmon) and not (float(np.ravel(t._stepmon.y[-1])[0]) == float(np.ravel(t.bestEnergy)[0])):
+                out.append(("restart/%s/stepmon-last-not-result" % kind, "%s: last step record %r is not the reported best energy %r" % (where, t._stepmon.y[-1], t.bestEnergy), case))
+        look(r, k, calls_at_dump, "right after LoadSolver of the periodic dump")
+        if not out:
+            before = len(_ENS_CALLS)
+            for _ in range(more):
+                r.Step(_ens_cost)
+            look(r, k + more, calls_at_dump + (len(_ENS_CALLS) - before), "after %d more Steps of the restored solver" % more)
+    except Exception as exc:
+        return [], "restart:%s:raised-%s" % (kind, type(exc).__name__)
+    finally:
+        try:
+            os.remove(fn)
+        except OSError:
+            pass
+    return out, "restart:%s" % kind
+
+
 def initial_points_case(rng):
     """C02: initial points requested within given limits are generated within them"""
     common.import_mystic()
@@ -649,6 +707,11 @@ def side_cases(pid, seed, shard, k, hist, findings, wlines):
             findings.append(Finding("monitor", key, what, case))
         if req is not None:
             wlines.append(req)
+    if pid == "C04" and k % 3 == 0:
+        res, tag = restart_case(rng)
+        hist[tag] = hist.get(tag, 0) + 1
+        for key, what, case in res:
+            findings.append(Finding("monitor", key, what, case))
     if pid == "C05" and k % 4 == 0:
         res, tag = ensemble_warn_case(rng)
         hist[tag] = hist.get(tag, 0) + 1
